@@ -96,8 +96,15 @@ Qed.
 (* a cached _t is consistent when it is absent or the cumulative sums of dt *)
 Definition t_consistent (cached : option (list R)) (dts : list R) : Prop :=
   cached = None \/ cached = Some (times RO dts).
-Lemma tau_get_consistent cached dts : t_consistent cached dts -> tau_get RO cached dts = tau_of_dt RO dts.
-Proof. intros [-> | ->]; simpl. reflexivity. apply tau_branches_agree. Qed.
+Lemma tau_get_consistent cached dts : t_consistent cached dts -> tau_get RO cached dts = tau_of_t RO dts.
+Proof. intros [-> | ->]; reflexivity. Qed.
+(* tau = t[-1] is the sum of the durations *)
+Theorem tau_get_sum cached dts : t_consistent cached dts -> tau_get RO cached dts = sumlist RO dts.
+Proof. intros H. rewrite tau_get_consistent by assumption. apply tau_branches_agree. Qed.
+(* remark on the code before f6ab3ac: its two-branch getter returned the same real number *)
+Theorem tau_prefix_agrees cached dts : t_consistent cached dts -> tau_get_prefix RO cached dts = tau_get RO cached dts.
+Proof. intros H. rewrite tau_get_consistent by assumption. destruct H as [-> | ->]; simpl.
+  symmetry. apply tau_branches_agree. reflexivity. Qed.
 Lemma t_get_consistent cached dts : t_consistent cached dts -> t_get RO cached dts = times RO dts.
 Proof. intros [-> | ->]; reflexivity. Qed.
 
@@ -107,11 +114,12 @@ Theorem concat_tau dtss cached : length cached = length dtss ->
   concat_tau_assigned RO dtss cached = tau_get RO None (concat_dt dtss)
   /\ tau_get RO None (concat_dt dtss) = tau_of_t RO (concat_dt dtss).
 Proof.
-  intros HL H. split; [|symmetry; apply tau_branches_agree].
-  unfold concat_tau_assigned, concat_dt. simpl. unfold tau_of_dt. rewrite sumlist_concat.
+  intros HL H. split; [|reflexivity].
+  rewrite (tau_get_sum None) by (left; reflexivity).
+  unfold concat_tau_assigned, concat_dt. rewrite sumlist_concat.
   revert cached HL H. induction dtss as [|x r IH]; intros [|c cs] HL H; simpl in *; try lia. reflexivity.
   f_equal.
-  - apply (tau_get_consistent c x). apply (H 0%nat). lia.
+  - apply (tau_get_sum c x). apply (H 0%nat). lia.
   - apply IH. lia. intros i Hi. apply (H (S i)). lia.
 Qed.
 (* concatenate_periodic: G * tau is the tau of the tiled dt *)
@@ -119,19 +127,20 @@ Theorem periodic_tau G cached dts : t_consistent cached dts ->
   periodic_tau_assigned RO G cached dts = tau_get RO None (tile dts G)
   /\ tau_get RO None (tile dts G) = tau_of_t RO (tile dts G).
 Proof.
-  intros H. split; [|symmetry; apply tau_branches_agree].
-  unfold periodic_tau_assigned. rewrite (tau_get_consistent _ _ H). simpl. unfold tau_of_dt.
+  intros H. split; [|reflexivity].
+  rewrite (tau_get_sum None) by (left; reflexivity).
+  unfold periodic_tau_assigned. rewrite (tau_get_sum _ _ H).
   rewrite sumlist_tile, onat_INR. reflexivity.
 Qed.
 (* extend / remap: dt and the cached _t are copied, so t and tau are those of the source pulse *)
 Theorem copied_t_tau cached dts : t_consistent cached dts ->
   t_get RO (copied_t cached) dts = times RO dts /\ tau_get RO (copied_t cached) dts = tau_of_t RO dts.
-Proof. intros H. unfold copied_t. rewrite t_get_consistent, tau_get_consistent, tau_branches_agree; auto. Qed.
+Proof. intros H. unfold copied_t. rewrite t_get_consistent, tau_get_consistent; auto. Qed.
 (* __getitem__: caches are empty, t and tau are recomputed from the sliced dt *)
 Theorem slice_t_tau a b (dts : list R) :
   t_get RO None (slice a b dts) = times RO (slice a b dts)
   /\ tau_get RO None (slice a b dts) = tau_of_t RO (slice a b dts).
-Proof. split. reflexivity. symmetry. apply tau_branches_agree. Qed.
+Proof. split; reflexivity. Qed.
 
 (* the sliced pulse's t is the old t shifted by t_a *)
 Lemma cumsum_from_skipn acc dts a : (a <= length dts)%nat ->
